@@ -111,6 +111,9 @@ pub enum FaultKind {
     CloseAfterReply,
     /// not a fault: a warning precedes the positive indication
     WarningThenOk,
+    /// a warning-severity rpc-error next to an error-severity one (warning first, or error first, by the
+    /// request index's parity); the operation is not performed
+    WarningAndError,
 }
 
 impl FaultKind {
@@ -623,7 +626,7 @@ impl Junos {
             applied: false,
         };
         op.paths("", &mut rec.paths);
-        let refuse = matches!(fault, Some(FaultKind::RpcError | FaultKind::LoadErrorInResults | FaultKind::LoadErrorThenOk | FaultKind::OkThenError | FaultKind::LoadPartial | FaultKind::CloseBeforeReply))
+        let refuse = matches!(fault, Some(FaultKind::RpcError | FaultKind::WarningAndError | FaultKind::LoadErrorInResults | FaultKind::LoadErrorThenOk | FaultKind::OkThenError | FaultKind::LoadPartial | FaultKind::CloseBeforeReply))
             || (fault == Some(FaultKind::EmptyBody) && !matches!(op.local.as_str(), "open-configuration" | "close-configuration"));
         // ---- perform the operation on the model
         let mut warnings: Vec<String> = Vec::new();
@@ -775,6 +778,14 @@ impl Junos {
                 FaultKind::RpcError => {
                     rec.reply = ReplyKind::Negative;
                     msgs.push(reply_doc(&id, &rpc_error("error", "operation-failed", "injected failure")));
+                }
+                FaultKind::WarningAndError => {
+                    rec.reply = ReplyKind::Negative;
+                    let w = rpc_error("warning", "operation-failed", "uncommitted changes will be discarded on exit");
+                    let e = rpc_error("error", "operation-failed", "injected failure");
+                    let both = if k % 2 == 0 { format!("{w}{e}") } else { format!("{e}{w}") };
+                    let body = if op.local == "load-configuration" { format!("<load-configuration-results>{both}<load-error-count>1</load-error-count></load-configuration-results>") } else { both };
+                    msgs.push(reply_doc(&id, &body));
                 }
                 FaultKind::LoadPartial if op.local != "load-configuration" => {
                     rec.reply = ReplyKind::Negative;
